@@ -6,7 +6,7 @@ d=$(mktemp -d /tmp/mut.XXXXXX)
 git -C /repo worktree add -q --detach $d/repo HEAD || exit 2
 git -C $d/repo apply "$patch" || { git -C /repo worktree remove --force $d/repo; exit 2; }
 for p in "$@"; do
-  out=$(VERIF_REPO=$d/repo /verif/check $p 2>/dev/null | grep -c VIOLATION)
+  out=$(VERIF_EVIDENCE_DIR=$d/evidence VERIF_REPO=$d/repo /verif/check $p 2>/dev/null | grep -c VIOLATION)
   echo "$(basename $patch) $p violations_lines=$out"
 done
 git -C /repo worktree remove --force $d/repo; rm -rf $d
